@@ -244,6 +244,20 @@ def word_end_adjacent(d, pieces) -> bool:
     return False
 
 
+def dash_end_adjacent(d, pieces) -> bool:
+    """An end delimiter that starts with '-' written directly after its start delimiter ('{{' + '-}' for an
+    empty output statement): the text look-ahead `(start)(?P<rstrip>-?)` reads the delimiter's own '-' as
+    white-space control.  Such a delimiter collides with the '-' syntax itself; only empty markup (a syntax
+    error anyway) is affected.  Kept out of the streams, stated in ASSUMPTIONS."""
+    te, se = d[1], d[3]
+    for p in pieces:
+        if p[0] == "out" and se.startswith("-") and not p[1] and not (p[2] + p[3] + p[4]) and not p[5]:
+            return True
+        if p[0] == "tag" and te.startswith("-") and not p[1] and not (p[2] + p[3] + p[4] + p[5] + p[6]) and not p[7]:
+            return True
+    return False
+
+
 def collides(d, pieces) -> bool:
     """True when d collides with itself or with the template text: some delimiter string occurs in the
     assembled source anywhere except where the rewriting wrote it (raw / doc bodies may contain anything but
@@ -260,7 +274,7 @@ def collides(d, pieces) -> bool:
             if any(a <= pos and pos + len(x) <= b for a, b in protected):
                 continue
             return True
-    if word_end_adjacent(d, pieces):
+    if word_end_adjacent(d, pieces) or dash_end_adjacent(d, pieces):
         return True
     ts = d[0]
     for a, b in protected:
